@@ -34,6 +34,14 @@ pub fn check(o: &FOutcome) -> Checked {
     let mut gone: Vec<(u64, usize, u64, Option<u64>, bool)> = vec![];
     let mut exit_op = String::new();
     let mut barriers: Vec<u64> = vec![];
+    let mut quiesced_ts: Option<u64> = None;
+    let mut quiesced_pool = 0usize;
+    let mut fate_ts: HashMap<u64, u64> = HashMap::new();
+    for (ts, _ms, e) in &o.evs {
+        if let FEv::Start { id, .. } | FEv::Discard { id, .. } = e {
+            fate_ts.entry(*id).or_insert(*ts);
+        }
+    }
     for (ts, _ms, e) in &o.evs {
         match e {
             FEv::Dispatch { id, key, sent, .. } => {
@@ -49,6 +57,10 @@ pub fn check(o: &FOutcome) -> Checked {
             FEv::WorkerGone { wid, inc, inflight, reported_inflight } => gone.push((*ts, *wid, *inc, *inflight, *reported_inflight)),
             FEv::Op(s) if s == "stop" || s == "drain" => exit_op = s.clone(),
             FEv::Barrier { .. } => barriers.push(*ts),
+            FEv::Op(s) if s.starts_with("quiesced") => {
+                quiesced_ts = Some(*ts);
+                quiesced_pool = s.split("pool=").nth(1).and_then(|x| x.split(' ').next()).and_then(|x| x.parse::<usize>().ok()).unwrap_or(0);
+            }
             FEv::Op(s) if s.starts_with("WRONG-JOB-RETURNED") => v.push(("wrong-job-returned".into(), s.clone(), "wrong-job-returned".into())),
             FEv::Op(s) if s.starts_with("port-pending") => v.push(("acceptance-port-hangs".into(), s.clone(), "acceptance-port-hangs".into())),
             _ => {}
@@ -123,6 +135,22 @@ pub fn check(o: &FOutcome) -> Checked {
         let j = &jobs[id];
         if deaths_after(j.dispatch_ts) == 0 {
             v.push(("silently-lost".into(), format!("job {id} met no fate and no worker exited after it was dispatched"), "silently-lost".into()));
+        }
+    }
+    // jobs queued for a worker that dies are given to its replacement / nothing waits forever while workers are healthy:
+    // after 20 virtual seconds without any stimulus (job durations <= 50 ms) and with a non-empty pool, every job the
+    // factory had accepted has started or has been discarded
+    if let Some(q) = quiesced_ts {
+        if quiesced_pool > 0 {
+            let mut starved: Vec<u64> = jobs
+                .iter()
+                .filter(|(id, j)| j.sent && j.accepted != Some(false) && j.dispatch_ts < q && barriers.iter().any(|b| *b > j.dispatch_ts && *b < q) && fate_ts.get(*id).map_or(false, |t| *t > q))
+                .map(|(id, _)| *id)
+                .collect();
+            starved.sort();
+            if !starved.is_empty() {
+                v.push(("starved".into(), format!("jobs {:?} were accepted, the factory (pool {quiesced_pool}) then idled for 20 virtual seconds, and they had still neither started nor been discarded (they were only dealt with when the factory was told to stop)", &starved[..starved.len().min(8)]), "starved".into()));
+            }
         }
     }
     if o.stuck {
